@@ -21,6 +21,7 @@ extern char** environ;
 
 #define MEM_CAP ((size_t)256U << 20U)
 #define MAX_LIVE 64
+#define MAX_HANGS 5
 
 // ---------------------------------------------------------------- tracking allocator
 typedef struct {
@@ -323,7 +324,14 @@ int main(void)
 
   volatile size_t* done = (volatile size_t*)mmap(NULL, sizeof(size_t), PROT_READ | PROT_WRITE, MAP_SHARED | MAP_ANONYMOUS, -1, 0);
   *done = 0;
+  int hangs = 0;
   while (*done < n) {
+    if (hangs >= MAX_HANGS) {
+      // a non-terminating build: do not spend 2 s on every remaining case
+      puts("out=SKIPPED-after-hangs");
+      ++*done;
+      continue;
+    }
     fflush(stdout);
     pid_t pid = fork();
     if (pid < 0) {
@@ -354,6 +362,7 @@ int main(void)
       // the worker died inside case *done
       if (WIFSIGNALED(status) && WTERMSIG(status) == SIGALRM) {
         puts("out=HANG");
+        ++hangs;
       } else if (WIFSIGNALED(status)) {
         printf("out=CRASH signal=%d\n", WTERMSIG(status));
       } else {
